@@ -65,8 +65,11 @@ func VC17_roundtrip() {
 		if i > 0 {
 			text += "---\n"
 		}
-		if vrt.Bool() {
+		switch vrt.Choose(3) {
+		case 1:
 			text += "# a comment\n\n"
+		case 2:
+			text += "# was counter: p:{" + c17val(1) + "," + c17val(1) + "}  (comments may hold any text, braces included)\n"
 		}
 		r.Title = c17val(vrt.Param("vallen", 2))
 		text += "title: " + r.Title + "\n"
